@@ -167,6 +167,10 @@ where
     }
 
     pub fn is_used(&self, value: T) -> bool {
+        if value < self.lowest || self.highest < value {
+            // a value outside the range can never be handed out, so it is never "used"
+            return false;
+        }
         !self.pool.iter().any(|iv| iv.contains(value))
     }
 
